@@ -213,7 +213,14 @@ func (c *Ctx) load(h *Heap, l *Loc) Val {
 		}
 		if c.noBind == 0 && a.leaf.Kind == KRef && isEntryHeapTerm(v[i]) && !c.lazyDone["entryref@"+v[i]] {
 			c.lazyDone["entryref@"+v[i]] = true
-			c.asserts = append(c.asserts, lt(v[i], "|alloc@0|"))
+			// ... provided the cell itself belongs to an object that existed at entry (a cell of an
+			// object allocated later, e.g. the pointee of a fresh pointer returned by a contract with
+			// an empty frame, is not part of the entry state although its array name is)
+			fact := lt(v[i], "|alloc@0|")
+			if len(a.idx) > 0 && !isLiteral(a.idx[0]) && !strings.HasPrefix(a.idx[0], "|in_") {
+				fact = implies(lt(a.idx[0], "|alloc@0|"), fact)
+			}
+			c.asserts = append(c.asserts, fact)
 		}
 	}
 	// type invariants of values stored in the entry heap (ranges, slice/interface structure)
